@@ -31,7 +31,9 @@ import (
 	"github.com/attestantio/dirk/core"
 	"github.com/attestantio/dirk/rules"
 	standardrules "github.com/attestantio/dirk/rules/standard"
+	amhandler "github.com/attestantio/dirk/services/api/grpc/handlers/accountmanager"
 	"github.com/attestantio/dirk/services/api/grpc/handlers/receiver"
+	"github.com/attestantio/dirk/services/accountmanager"
 	"github.com/attestantio/dirk/services/api/grpc/interceptors"
 	"github.com/attestantio/dirk/services/checker"
 	staticchecker "github.com/attestantio/dirk/services/checker/static"
@@ -929,16 +931,13 @@ func dkgEngine(workdir string) {
 				genPass = nil
 				c.fault = nil
 			}
-			pub, parts, err := in.process.OnGenerate(context.Background(), &checker.Credentials{Client: unhexStr(f[2]), RequestID: "r"},
-				unhexStr(f[3]), genPass, uint32(u64(f[4])), uint32(u64(f[5])))
+			// through the real gRPC account-manager handler (services/api/grpc/handlers/accountmanager.Generate), with the request
+			// context the interceptors would have built: what the handler does to the request before the process sees it is covered
+			pub, ids, err := genViaHandler(in, unhexStr(f[2]), unhexStr(f[3]), genPass, uint32(u64(f[4])), uint32(u64(f[5])))
 			c.fault = nil
 			if err != nil {
 				res = "err"
 			} else {
-				var ids []uint64
-				for _, p := range parts {
-					ids = append(ids, p.ID)
-				}
 				sort.Slice(ids, func(i, j int) bool { return ids[i] < ids[j] })
 				res = fmt.Sprintf("ok %x %s", pub, idsStr(ids))
 			}
@@ -1256,6 +1255,9 @@ func dkgEngine(workdir string) {
 			res = coreStr(r) + " " + strings.Join(names, ",")
 		case "shareowners":
 			res = c.shareOwners(u64(f[1]), unhexStr(f[2]))
+		case "sendowners":
+			// sendowners <asker> <account>: every contribution the asker's Execute SENDS while each send fails in transit
+			res = c.sendOwners(u64(f[1]), unhexStr(f[2]))
 		default:
 			res = "bad-op " + line
 		}
@@ -1433,4 +1435,94 @@ func (s *captureSender) SendContribution(_ context.Context, r *core.Endpoint, _ 
 	}
 	s.sent[r.ID] = capturedContribution{secret: secret, vvec: append([]bls.PublicKey{}, vVec...)}
 	return bls.SecretKey{}, nil, errors.New("capture only")
+}
+
+
+// nullAccountManager satisfies the handler's constructor; Generate does not use the account manager.
+type nullAccountManager struct{ accountmanager.Service }
+
+// genViaHandler sends a Generate request through the real gRPC handler of instance in, as client `client`.
+func genViaHandler(in *dkgInst, client, account string, pass []byte, threshold, participants uint32) ([]byte, []uint64, error) {
+	h, err := amhandler.New(context.Background(), amhandler.WithAccountManager(nullAccountManager{}), amhandler.WithProcess(in.process))
+	if err != nil {
+		return nil, nil, err
+	}
+	ctx := context.WithValue(context.Background(), &interceptors.ClientName{}, client)
+	ctx = context.WithValue(ctx, &interceptors.RequestID{}, "r")
+	resp, err := h.Generate(ctx, &pb.GenerateRequest{Account: account, Passphrase: pass, SigningThreshold: threshold, Participants: participants})
+	if err != nil {
+		return nil, nil, err
+	}
+	if resp.GetState() != pb.ResponseState_SUCCEEDED {
+		return nil, nil, errors.New("generate: " + resp.GetState().String())
+	}
+	var ids []uint64
+	for _, p := range resp.GetParticipants() {
+		ids = append(ids, p.GetId())
+	}
+	return resp.GetPublicKey(), ids, nil
+}
+
+
+// listSender records EVERY contribution handed to the transport (recipient, share, vector) and fails each send in transit.
+type listSender struct {
+	captureSender
+	all []struct {
+		to uint64
+		cc capturedContribution
+	}
+}
+
+func (s *listSender) SendContribution(_ context.Context, r *core.Endpoint, _ string, secret bls.SecretKey, vVec []bls.PublicKey) (bls.SecretKey, []bls.PublicKey, error) {
+	s.all = append(s.all, struct {
+		to uint64
+		cc capturedContribution
+	}{r.ID, capturedContribution{secret: secret, vvec: append([]bls.PublicKey{}, vVec...)}})
+	return bls.SecretKey{}, nil, errors.New("injected: contribution lost in transit")
+}
+
+// sendOwners: a process with the asker's id prepares a generation with ALL instances as participants and executes it through a
+// transport on which every send fails; each share handed to the transport must be the share of the endpoint it was addressed to
+// (it verifies against the sent vector at the recipient's id and at no other participant's id) — whatever the process does
+// about failed sends (give up, retry, reorder).
+func (c *cluster) sendOwners(asker uint64, account string) string {
+	as := c.insts[asker]
+	if as == nil {
+		return "bad:inst"
+	}
+	ls := &listSender{}
+	enc := keystorev4.New()
+	peersSvc, _ := staticpeers.New(context.Background(), staticpeers.WithPeers(c.peerMap))
+	chk, _ := staticchecker.New(context.Background(), staticchecker.WithPermissions(map[string][]*checker.Permissions{"c": {{Path: "DW", Operations: []string{"All"}}}}))
+	tmp, err := standardprocess.New(context.Background(), standardprocess.WithChecker(chk), standardprocess.WithUnlocker(as.unlocker),
+		standardprocess.WithSender(ls), standardprocess.WithFetcher(as.fetcher), standardprocess.WithEncryptor(enc), standardprocess.WithPeers(peersSvc),
+		standardprocess.WithID(asker), standardprocess.WithStores([]e2wtypes.Store{as.store}), standardprocess.WithGenerationPassphrase([]byte("pass")))
+	if err != nil {
+		return "bad:tmp"
+	}
+	var parts []*core.Endpoint
+	for _, ep := range c.endpoints(c.ids) {
+		parts = append(parts, &core.Endpoint{ID: ep.Id, Name: ep.Name, Port: ep.Port})
+	}
+	t := uint32(len(c.ids)/2 + 1)
+	if err := tmp.OnPrepare(context.Background(), asker, account, []byte("pass"), t, parts); err != nil {
+		return "bad:tmp-prepare"
+	}
+	_ = tmp.OnExecute(context.Background(), asker, account)
+	for _, s := range ls.all {
+		var owners []string
+		for _, id := range c.ids {
+			var want bls.PublicKey
+			if err := want.Set(s.cc.vvec, blsID(id)); err != nil {
+				continue
+			}
+			if s.cc.secret.GetPublicKey().IsEqual(&want) {
+				owners = append(owners, strconv.FormatUint(id, 10))
+			}
+		}
+		if got := strings.Join(owners, ","); got != strconv.FormatUint(s.to, 10) {
+			return fmt.Sprintf("MISMATCH sent-to=%d share-for=%s", s.to, got)
+		}
+	}
+	return fmt.Sprintf("ok=%d", len(ls.all))
 }
